@@ -103,6 +103,11 @@ TraitSigs ==
   \cup {Sg(K("opq"), <<StructT("Mix"), TraitT("TrB", <<CbT(<<P("u32")>>, P("u32")), CbT(<<>>, UnitT), CbT(<<StructT("Inner")>>, P("i32"))>>),
                         TraitT("TrA", <<CbT(<<P("u8")>>, P("u8"))>>), P("u8")>>, TRUE, UnitT)}
   \cup {Sg(K("opqmut"), <<TraitT("TrC", <<CbT(<<P("f64"), EnumT>>, P("bool")), CbT(<<P("u64")>>, StructT("Inner"))>>), CbT(<<P("u8")>>, P("u8"))>>, FALSE, ResT(P("u8"), EnumT))}
+\* a writer next to a returned VALUE (neither (), Option<()> nor Result<(), E>): nothing in the book forbids it, lowering accepts it, and
+\* the macro compiles it like any other function -- self, the parameters, the writer, and the value as the result
+WValSigs == {Sg(K("opq"), <<P("u8")>>, TRUE, r) : r \in {P("usize"), P("u32"), EnumT, StructT("Inner"), K("box"), OptT("std", P("u8")),
+                                                           ResT(P("u32"), EnumT), ResT(K("box"), UnitT)}}
+              \cup {Sg(K("none"), <<>>, TRUE, P("bool"))}
 CbShape(c) == [ret |-> Shape(c.r), params |-> <<PtrS>> \o [i \in 1..Len(c.ps) |-> Shape(c.ps[i])]]
 
 VARIABLES sig, stage
@@ -113,6 +118,7 @@ Init == IF Mode = "cover" THEN sig \in CoverSigs /\ stage = "done"
         ELSE IF Mode = "cb" THEN sig \in CbSigs /\ stage = "done"
         ELSE IF Mode = "trait" THEN sig \in TraitSigs /\ stage = "done"
         ELSE IF Mode = "strs" THEN sig \in StrsSigs /\ stage = "done"
+        ELSE IF Mode = "wval" THEN sig \in WValSigs /\ stage = "done"
         ELSE sig = Sg(K("none"), <<>>, FALSE, UnitT) /\ stage = "self"
 PickSelf == stage = "self" /\ \E sf \in SelfKinds : sig' = [sig EXCEPT !.self = sf] /\ stage' = "params"
 \* random combinations may also place a callback anywhere in the parameter list
